@@ -186,6 +186,10 @@ def run(ctx):
            "in -I mode the input line must be obtained under a non-emptiness guard (first()/get(0)/is_empty()) whose empty side returns Ok(Success) without running anything; an unguarded extra_args[0] panics on empty input. events: %s" % desc[:600],
            fn=ex, how="event graph")
 
+    # "once for each non-empty input line": which reader is used and whether it keeps empty fields is C05's R1/R2
+    # (empty fields are kept only for -0/-d given by the user, never for the line mode -I selects)
+    C.import_rules(ctx, "C05", ["R1", "R2"], "R3", key_prefix="lines")
+
     # ---- R2 option precedence ------------------------------------------------------------------------
     no = ctx.fn("R2", X + "normalize_options")
     if no is not None:
